@@ -725,6 +725,15 @@ def try_edges(body, call_bb):
                 if okb is not None and erb is not None:
                     return okb, erb
             return None
+        if tt['k'] == 'goto':
+            # the return block of a spliced helper: `res = move <helper's return place>; goto`: follow the value
+            for s_ in body.stmts(nxt):
+                if 'assign' in s_ and not s_['assign'].get('p') and s_['rv'].get('k') == 'use':
+                    sp_ = op_place(s_['rv']['op'])
+                    if sp_ is not None and not sp_.get('p') and sp_['l'] == dest:
+                        dest = s_['assign']['l']
+            cur = nxt
+            continue
         if tt['k'] != 'call':
             return None
         a0 = op_place(tt['args'][0]) if tt['args'] else None
